@@ -347,13 +347,44 @@ def check_sed_interpolate(ctx):
     Is = Interp(repo, hs)
     Is.axis_len[A] = 1
     outs = Is.call(fs, [symarr('q', (D,), unit=num(1))], selfv=mks())
-    compare(ctx, 'CFG-7', 'SED.interpolate single-aperture table', loc(fs), outs, mk_fn('at', B(A, sym('flux', A, N)), P(Poly())), (N, D), vocab=VOCAB, fns=FNS,
+    from ..roundtrip import TrialCtx
+    t = TrialCtx(ctx)
+    compare(t, 'CFG-7', 'SED.interpolate single-aperture table', loc(fs), outs, mk_fn('at', B(A, sym('flux', A, N)), P(Poly())), (N, D), vocab=VOCAB, fns=FNS,
             findings=[f for f in Is.findings if f.kind == 'label-clash'], detail_ok='every requested radius gets the single tabulated flux of each wavelength')
+    if not (t.n_undecided and not t.n_violations and single_aperture_concrete(ctx, fs, mks)):
+        t.commit()
     Iv = Interp(repo, H(single=True))
     Iv.axis_len[A] = 1
     outv = Iv.call(ctx.fn(repo.func('sed.sed', 'SED.interpolate_variable')), [symarr('fw', ('w',), unit=num(1)), symarr('q', ('w',), unit=num(1))], selfv=mks())
     compare(ctx, 'CFG-7', 'interpolate_variable single-aperture table', loc(fs), outv, mk_fn('at', B(A, sym('flux', A, N)), P(Poly())), (N,), vocab=VOCAB, fns=FNS,
             findings=[f for f in Iv.findings if f.kind == 'label-clash'], detail_ok='the single tabulated flux of each wavelength')
+
+
+def single_aperture_concrete(ctx, fs, mks):
+    """SED.interpolate on a one-aperture table of 3 wavelengths asked for 2 radii: element [n, d] of the result must be the tabulated flux of wavelength n
+    (a repeat followed by a reshape is then written out position by position).  True when decided (the verdict is recorded)."""
+    I = Interp(ctx.repo, H(single=True))
+    I.axis_len[A], I.axis_len[N], I.axis_len[D] = 1, 3, 2
+    try:
+        out = I.call(fs, [symarr('q', (D,), unit=num(1))], selfv=mks())
+    except Exception:
+        return False
+    if not isinstance(out, Arr) or out.mask is not None or out.ndim != 2 or I.lost or any(d_ is None or I.axis_len.get(d_) != n_ for d_, n_ in zip(out.dims, (3, 2))):
+        return False
+    mJy = sym('unit:mJy')
+    bad = []
+    for n_ in range(3):
+        for d_ in range(2):
+            got = alg.index_at(alg.index_at(out.poly, out.dims[0], Poly.const(n_)), out.dims[1], Poly.const(d_))
+            want = alg.index_at(alg.index_at(sym('flux', A, N), A, Poly()), N, Poly.const(n_))
+            if not (alg.is_zero(got - want)[0] or alg.is_zero(got - want / mJy)[0]):
+                syms_, fns_ = alg.leaf_syms(got)
+                if not (syms_ <= {'flux', 'unit:mJy'} and fns_ <= {'at'}):
+                    return False
+                bad.append('element [%d, %d] is %s, not the flux of wavelength %d' % (n_, d_, alg.show(got, 60), n_))
+    ctx.expect(not bad, 'CFG-7', 'SED.interpolate single-aperture table (3 wavelengths, 2 requested radii, position by position)', loc(fs),
+               'every requested radius gets the single tabulated flux of each wavelength', '; '.join(bad[:2]), 'single-aperture-scramble')
+    return True
 
 
 def variable_reference(k):
@@ -597,6 +628,7 @@ CF = 'sedfitter/convolved_fluxes/convolved_fluxes.py'
 VA = 'sedfitter/utils/validator.py'
 SE = 'sedfitter/sed/sed.py'
 MUST_FIRE = [
+    ('single-aperture SED repeated along the first axis, then reshaped (not a transpose): scrambled for two or more requests', [(SE, 'return np.repeat(self.flux[0, :], len(apertures)).reshape(self.n_wav, len(apertures))', 'return np.repeat(self.flux[0:1, :], len(apertures), axis=0).reshape(self.n_wav, len(apertures))')]),
     ('apertures setter demands increasing values: a request in another order is refused', [(CF, "self._apertures = validate_array('apertures', value, domain='positive', ndim=1, physical_type='length')", "self._apertures = validate_array('apertures', value, domain='increasing', ndim=1, physical_type='length')"),
         (VA, "            raise ValueError(\"{0} has incorrect shape (expected {1} but found {2})\".format(name, expected_shape, actual_shape))\n\n    return value", "            raise ValueError(\"{0} has incorrect shape (expected {1} but found {2})\".format(name, expected_shape, actual_shape))\n\n    if domain == 'increasing':\n        if np.any(np.diff(value) <= 0.):\n            raise ValueError(\"{0} should be strictly increasing\".format(name))\n\n    return value")]),
     ('SED look-up by searchsorted(side=right): a request on the largest aperture indexes past the table', [(SE, '        # Create interpolating function\n        flux_interp = interp1d(sed_apertures, self.flux.swapaxes(0, 1))\n\n        # If any apertures are larger than the defined max, reset to max\n        apertures[apertures > sed_apertures.max()] = sed_apertures.max()\n\n        # If any apertures are smaller than the defined min, raise Exception\n        if np.any(apertures < sed_apertures.min()):\n            raise Exception("Aperture(s) requested too small")\n\n        return flux_interp(apertures)\n', '        # If any apertures are larger than the defined max, reset to max\n        apertures[apertures > sed_apertures.max()] = sed_apertures.max()\n\n        # If any apertures are smaller than the defined min, raise Exception\n        if np.any(apertures < sed_apertures.min()):\n            raise Exception("Aperture(s) requested too small")\n\n        # segment of the table each request falls in, then the chord of that segment\n        values = self.flux.value\n        upper = np.searchsorted(sed_apertures, apertures, side=\'right\')\n        lower = upper - 1\n        frac = (apertures - sed_apertures[lower]) / (sed_apertures[upper] - sed_apertures[lower])\n        return (values[lower, :] + (values[upper, :] - values[lower, :]) * frac[:, np.newaxis]).transpose()\n')]),
@@ -634,6 +666,7 @@ MUST_FIRE = [
                                                "        if np.any(apertures < sed_apertures.min()):\n            raise Exception(\"Aperture(s) requested too small\")\n\n        result = flux_interp(apertures)\n        apertures[apertures > sed_apertures.max()] = sed_apertures.max()\n        return result")]),
 ]
 MUST_SILENT = [
+    ('single-aperture SED repeated along a new last axis', [(SE, 'return np.repeat(self.flux[0, :], len(apertures)).reshape(self.n_wav, len(apertures))', 'return np.repeat(self.flux[0, :, np.newaxis], len(apertures), axis=1)')]),
     ('validate_array enforces the positive domain it was always passed', [(VA, "            raise ValueError(\"{0} has incorrect shape (expected {1} but found {2})\".format(name, expected_shape, actual_shape))\n\n    return value", "            raise ValueError(\"{0} has incorrect shape (expected {1} but found {2})\".format(name, expected_shape, actual_shape))\n\n    if domain == 'positive':\n        if np.any(value < 0.):\n            raise ValueError(\"{0} should be positive\".format(name))\n\n    return value")]),
     ('SED look-up by searchsorted, the first aperture taken with the first segment', [(SE, '        # Create interpolating function\n        flux_interp = interp1d(sed_apertures, self.flux.swapaxes(0, 1))\n\n        # If any apertures are larger than the defined max, reset to max\n        apertures[apertures > sed_apertures.max()] = sed_apertures.max()\n\n        # If any apertures are smaller than the defined min, raise Exception\n        if np.any(apertures < sed_apertures.min()):\n            raise Exception("Aperture(s) requested too small")\n\n        return flux_interp(apertures)\n', '        # If any apertures are larger than the defined max, reset to max\n        apertures[apertures > sed_apertures.max()] = sed_apertures.max()\n\n        # If any apertures are smaller than the defined min, raise Exception\n        if np.any(apertures < sed_apertures.min()):\n            raise Exception("Aperture(s) requested too small")\n\n        # segment of the table each request falls in, then the chord of that segment\n        values = self.flux.value\n        upper = np.searchsorted(sed_apertures, apertures)\n        upper = np.maximum(upper, 1)\n        lower = upper - 1\n        frac = (apertures - sed_apertures[lower]) / (sed_apertures[upper] - sed_apertures[lower])\n        return (values[lower, :] + (values[upper, :] - values[lower, :]) * frac[:, np.newaxis]).transpose()\n')]),
     ('look-up written as a loop over half-open aperture intervals, the largest aperture set on its own', [(CF, '            flux_interp = interp1d(self.apertures, self.flux)\n            c.flux = flux_interp(new_apertures) * self.flux.unit\n\n            # The following is not strictly correct - errors from interpolation is not interpolation of errors\n            error_interp = interp1d(self.apertures, self.error)\n            c.error = error_interp(new_apertures) * self.error.unit\n', '            ap_old = self.apertures.value\n            ap_new = new_apertures.value\n            tables = []\n            for values in (self.flux.value, self.error.value):\n                result = np.zeros((values.shape[0], len(ap_new)))\n                for ia in range(len(ap_old) - 1):\n                    calc = (ap_new >= ap_old[ia]) & (ap_new < ap_old[ia + 1])\n                    frac = (ap_new[calc] - ap_old[ia]) / (ap_old[ia + 1] - ap_old[ia])\n                    result[:, calc] = values[:, ia, np.newaxis] + (values[:, ia + 1] - values[:, ia])[:, np.newaxis] * frac[np.newaxis, :]\n                result[:, ap_new == ap_old[-1]] = values[:, -1, np.newaxis]\n                tables.append(result)\n            c.flux = tables[0] * self.flux.unit\n            c.error = tables[1] * self.error.unit\n')]),
